@@ -26,12 +26,14 @@ func init() {
 		Explanation: "Decides the finite tables of the boolean operations for every input that reaches them: each public wrapper passes the op constant of its name, its own operands and NonZero; SweepPoint.InResult's per-op membership expressions equal the property's truth table over (subject fills, clipping fills) on each side of an edge and an edge is kept iff filling changes; the pathOp switch is exhaustive; bentleyOttmann's four early-outs (Q empty, P empty, disjoint sub-path of P, of Q) keep an operand exactly for the ops whose truth table keeps it. NOT decided: the sweep itself, snap rounding, overlap merging, contour tracing, termination, area laws.",
 		Run: func(c *core.Ctx, r *core.Report) {
 			E9WindingInherited(c, r)
+			E9AdjacentAlwaysTested(c, r)
 			E11StickyFlag(c, r)
 			E9CopyDropsStatusNode(c, r)
 			E9ClipClosed(c, r)
 			E9AbsorbedLink(c, r)
 			E9AbsorbConserves(c, r)
 			E9DepthFromResultEdge(c, r)
+			E9DepthDerivedAfterRead(c, r)
 			E9SquareRange(c, r)
 			E9HoleParity(c, r)
 			E9WindingsSync(c, r)
@@ -46,10 +48,12 @@ func init() {
 		Run: func(c *core.Ctx, r *core.Report) {
 			E9EndpointPair(c, r)
 			E9WindingInherited(c, r)
+			E9AdjacentAlwaysTested(c, r)
 			E4InsertAlias(c, r, []string{""})
 			E9AbsorbedLink(c, r)
 			E9AbsorbConserves(c, r)
 			E9DepthFromResultEdge(c, r)
+			E9DepthDerivedAfterRead(c, r)
 			E9SquareRange(c, r)
 			E9HoleParity(c, r)
 			E9WindingsSync(c, r)
@@ -148,6 +152,7 @@ func init() {
 		Assumptions: []string{"lb.items[active.Position] (a position stored earlier from a checked index) is listed as unclassified, not decided"},
 		Run: func(c *core.Ctx, r *core.Report) {
 			E4RunningTotalsFixed(c, r)
+			E4NextToleranceRecorded(c, r)
 			E4ZeroGuardIsDivisor(c, r, "text")
 			E4ForcedBreakForgets(c, r)
 			E11SumNotOverwritten(c, r)
@@ -199,6 +204,7 @@ func init() {
 		Run: func(c *core.Ctx, r *core.Report) {
 			E6MemoStoresCompared(c, r)
 			E5ClosedPaintOperator(c, r)
+			E5PaintFollowsItsSetter(c, r)
 			E11ConstIndexInLoop(c, r)
 			E6DashPeriod(c, r)
 			E6JoinerSupport(c, r)
@@ -230,6 +236,7 @@ func init() {
 		Run: func(c *core.Ctx, r *core.Report) {
 			E11ArcSpanMagnitude(c, r)
 			E11ClampAfterSign(c, r)
+			E11ControlPointClausesSymmetric(c, r)
 			E1PathMethods(c, r)
 			E2CmdLenTable(c, r)
 			E2RecordLayout(c, r)
@@ -355,6 +362,7 @@ func init() {
 		Title:       "Embedded fonts and glyph paths reproduce the laid-out text",
 		Explanation: "Decides three structural clauses: (1) 'the glyph subsetter assigns each used glyph one stable code with .notdef at zero' — the constructor and Get/List have exactly the hit/miss/append shape, and the PDF writer creates a font's subsetter only when the font has none (a second writing direction must not reset the codes already written); (2) fonts used for vertical text are kept in their own map and written with the matching vertical flag (Identity-V vs Identity-H), every font map that reserves an object is written in Close, and every Tf operand names a font registered in the page's resources (E5 font-map and resource rules). (3) the ToUnicode grouping loop keeps `start+length` equal to the visited code (E11.run-covers-codes). NOT decided: outlines, advances, the W array contents, the characters the ToUnicode map names, glyph placement in toPath.",
 		Run: func(c *core.Ctx, r *core.Report) {
+			E11PenAdvancesOnly(c, r)
 			E6MemoStoresCompared(c, r)
 			E11AdvanceAxis(c, r)
 			E11Subsetter(c, r)
@@ -373,6 +381,7 @@ func init() {
 		Explanation: "Decides the unit and coverage tables of the importer for every document: parseDimension's factors equal the CSS absolute-unit and angle tables (constant folding); the canvas size is in millimetres on every branch (explicit width/height and viewBox fallback use the same px→mm factor) and init uses the inverse factor, the y-down coordinate system and the size/viewBox user-unit scale (px→mm without a viewBox); drawShape has a case for each basic shape; the path data parser's index guards and explicit-panic freedom are decided under C11. NOT decided: styling precedence, CSS selectors, transform order, per-element geometry, the write/read round trip.",
 		Run: func(c *core.Ctx, r *core.Report) {
 			E11SVGKeywordInitial(c, r)
+			E11EmptyValueAccepted(c, r)
 			E11HexDigitPairs(c, r)
 			E11SVGVocabulary(c, r)
 			E11WordListMatch(c, r)
@@ -447,6 +456,7 @@ func init() {
 		Explanation: "Decides, for every schedule and history: (1) no package-level variable of the module is stored outside package initialisation except inside a sync.Once/OnceFunc body, with the mutex of the same variable held (dominating Lock, no intervening Unlock), or through sync/atomic, and mutex-protected variables are also read under the mutex; (2) every function that reads the once-initialised pool variables is reachable from the concurrent API set only through a function whose once-call dominates all its other calls; (3) every object taken from a sync.Pool is completely overwritten or has every field stored before its first other use (no state carried between calls); (4) every range over a map in the module is order-independent by construction (collect-then-sort, commutative reductions, per-entry updates, total-order arg-best) or is a reviewed/known entry. NOT decided: races inside third-party packages, use-after-Put of pooled objects, writes through shared *Font objects (see E1 when wired), the naming of unnamed fonts by a global counter (inherent to the API).",
 		Assumptions: []string{"sync, sync/atomic behave as documented", "the API set is the one listed in DESIGN.md §3 C20"},
 		Run: func(c *core.Ctx, r *core.Report) {
+			E7FaceWithoutCache(c, r)
 			E7MemoKey(c, r)
 			E7Globals(c, r)
 			E7GlobalEscape(c, r)
